@@ -1,4 +1,176 @@
 (* C01 -- events take effect in time order, urgent first, then in trigger order.
-   Statements only; proofs in Kernel/Order.v. *)
+   Only statements, each closed by the lemma of Kernel/Order.v that proves it, and its assumptions.
+   All statements are about the executable kernel model Kernel/Model.v ([step], [run], [do_call], [schedule]),
+   for every code table [codes] (all process automata, any number of processes) and every execution.
+   [exec codes s l s']: a sequence of kernel transitions (a [step] popping entry m is labelled [Some m]; module-level
+   API calls and the prelude of run() are labelled [None]); [C01_run_is_execution] etc. show that [run], [step] and
+   module-level code only perform such executions.  [good]: the agenda invariant + the priority-class invariant. *)
 From Coq Require Import ZArith QArith List.
-From ONL Require Import Kernel.Model Kernel.Script.
+From ONL Require Import Kernel.Model Kernel.Keys Kernel.Inv Kernel.Order.
+Import ListNotations.
+
+(* run / step / module-level code are executions; the initial state is good and goodness is preserved *)
+Theorem C01_run_is_execution : forall fuel codes u s s' r,
+  run fuel codes u s = (s', r) -> exists l, exec codes s l s'.
+Proof. exact run_exec. Qed.
+Print Assumptions C01_run_is_execution.
+
+Theorem C01_step_is_execution : forall fuel codes s s' r,
+  step fuel codes s = (s', r) -> exists l, exec codes s l s'.
+Proof. exact step_exec. Qed.
+Print Assumptions C01_step_is_execution.
+
+Theorem C01_module_code_is_execution : forall (A : Type) codes (f : frag A) s s' r,
+  run_frag codes f s = (s', r) -> exists l, exec codes s l s'.
+Proof. exact @run_frag_exec. Qed.
+Print Assumptions C01_module_code_is_execution.
+
+Theorem C01_good_init : forall t0, good (init_state t0).
+Proof. exact good_init. Qed.
+Print Assumptions C01_good_init.
+
+Theorem C01_good_preserved : forall codes s l s', good s -> exec codes s l s' -> good s'.
+Proof. exact exec_good. Qed.
+Print Assumptions C01_good_preserved.
+
+(* agenda invariant in every reachable state: nothing pending lies in the past, insertion ids come from the
+   counter, ids are pairwise distinct, hence any two pending entries are strictly ordered by their keys *)
+Theorem C01_agenda_invariant : forall codes t0 l s,
+  exec codes (init_state t0) l s ->
+  (forall x, In x (agenda s) -> now s <= e_time x) /\
+  (forall x, In x (agenda s) -> (e_eid x < next_eid s)%nat) /\
+  NoDup (map e_eid (agenda s)) /\
+  (forall x y, In x (agenda s) -> In y (agenda s) -> x <> y -> key_lt x y \/ key_lt y x).
+Proof. exact agenda_invariant. Qed.
+Print Assumptions C01_agenda_invariant.
+
+(* simulated time never decreases *)
+Theorem C01_now_monotone : forall codes s l1 s1 l2 s2,
+  good s -> exec codes s l1 s1 -> exec codes s1 l2 s2 -> now s1 <= now s2.
+Proof. exact now_monotone. Qed.
+Print Assumptions C01_now_monotone.
+
+Theorem C01_run_now_monotone : forall fuel codes u s s' r,
+  good s -> run fuel codes u s = (s', r) -> now s <= now s' /\ good s'.
+Proof. exact run_now_monotone. Qed.
+Print Assumptions C01_run_now_monotone.
+
+Theorem C01_step_now_monotone : forall fuel codes s s' r,
+  good s -> step fuel codes s = (s', r) -> now s <= now s' /\ good s'.
+Proof. exact step_now_monotone. Qed.
+Print Assumptions C01_step_now_monotone.
+
+(* schedule inserts at exactly now + delay *)
+Theorem C01_schedule_inserts : forall e pr d s,
+  exists x, agenda (schedule e pr d s) = agenda s ++ [x] /\
+            e_time x == now s + d /\ e_prio x = pr /\ e_eid x = next_eid s /\ e_ev x = e /\
+            next_eid (schedule e pr d s) = S (next_eid s) /\ now (schedule e pr d s) = now s.
+Proof. exact schedule_inserts. Qed.
+Print Assumptions C01_schedule_inserts.
+
+(* whatever is pending takes effect -- if at all -- in a step that sets the clock to exactly its time, and while
+   it is pending the clock has not passed that time: never earlier, never later *)
+Theorem C01_takes_effect_exactly : forall codes s x l s',
+  good s -> In x (agenda s) -> exec codes s l s' ->
+  (In x (agenda s') /\ now s' <= e_time x) \/
+  (exists l1 l2 sa sb, l = l1 ++ Some x :: l2 /\ exec codes s l1 sa /\ In x (agenda sa) /\
+                       ktrans codes sa (Some x) sb /\ now sb = e_time x /\ exec codes sb l2 s').
+Proof. exact pending_takes_effect_exactly. Qed.
+Print Assumptions C01_takes_effect_exactly.
+
+(* a timeout created at t0 with delay d >= 0 is due at t0 + d and takes effect in a step with now == t0 + d *)
+Theorem C01_timeout_takes_effect_exactly : forall codes s d v s1 e l s',
+  good s -> do_call codes (CTimeout d v) s = (s1, Ok (VEv e)) -> exec codes s1 l s' ->
+  0 <= d /\
+  exists x, e_ev x = e /\ e_prio x = NORMAL /\ e_eid x = next_eid s /\ e_time x == now s + d /\
+            agenda s1 = agenda s ++ [x] /\
+    ((In x (agenda s') /\ now s' <= now s + d) \/
+     (exists l1 l2 sa sb, l = l1 ++ Some x :: l2 /\ exec codes s1 l1 sa /\ ktrans codes sa (Some x) sb /\
+                          now sb == now s + d /\ exec codes sb l2 s')).
+Proof. exact timeout_takes_effect_exactly. Qed.
+Print Assumptions C01_timeout_takes_effect_exactly.
+
+(* when a step advances the clock, nothing pending before or after it is due earlier than the new time *)
+Theorem C01_nothing_skipped : forall codes s m s',
+  good s -> ktrans codes s (Some m) s' ->
+  now s' = e_time m /\ now s <= now s' /\
+  (forall x, In x (agenda s) -> e_time m <= e_time x) /\
+  (forall x, In x (agenda s') -> now s' <= e_time x).
+Proof. exact nothing_skipped. Qed.
+Print Assumptions C01_nothing_skipped.
+
+(* run() returning normally has processed everything *)
+Theorem C01_run_all_drains : forall fuel codes s s', run fuel codes UNone s = (s', ROk) -> agenda s' = [].
+Proof. exact run_all_drains. Qed.
+Print Assumptions C01_run_all_drains.
+
+(* pop order = key order among simultaneously pending entries *)
+Theorem C01_pop_order : forall codes s l1 a l2 s' b,
+  good s -> exec codes s (l1 ++ Some a :: l2) s' ->
+  In b (agenda s) -> ~ In (Some b) l1 -> b <> a -> key_lt a b.
+Proof. exact pop_order. Qed.
+Print Assumptions C01_pop_order.
+
+(* same instant, same class: processed in trigger (insertion) order, wherever they were inserted *)
+Theorem C01_same_class_fifo : forall codes s l1 b l2 s' a,
+  good s -> exec codes s (l1 ++ Some b :: l2) s' -> In (Some a) (l1 ++ Some b :: l2) ->
+  e_time a == e_time b -> e_prio a = e_prio b -> (e_eid a < e_eid b)%nat ->
+  In (Some a) l1.
+Proof. exact same_class_fifo. Qed.
+Print Assumptions C01_same_class_fifo.
+
+(* urgent before normal at one instant *)
+Theorem C01_urgent_first : forall codes s a b l1 l2 s',
+  good s -> In a (agenda s) -> In b (agenda s) ->
+  e_time a == e_time b -> (e_prio a < e_prio b)%nat ->
+  exec codes s (l1 ++ Some b :: l2) s' -> In (Some a) l1.
+Proof. exact urgent_first. Qed.
+Print Assumptions C01_urgent_first.
+
+(* Initialize, Interruption and the numeric-until sentinel are URGENT, everything else NORMAL *)
+Theorem C01_priority_classes : forall codes t0 l s x,
+  exec codes (init_state t0) l s -> In x (agenda s) ->
+  exists ev, nth_error (events s) (e_ev x) = Some ev /\
+             (urgent_kind (kind ev) -> e_prio x = URGENT) /\ (~ urgent_kind (kind ev) -> e_prio x = NORMAL).
+Proof. exact priority_classes. Qed.
+Print Assumptions C01_priority_classes.
+
+Theorem C01_initialize_urgent : forall codes code arg s pr,
+  nth_error codes code = Some pr ->
+  let s' := fst (call_spawn codes code arg s) in
+  exists x ev, agenda s' = agenda s ++ [x] /\ e_prio x = URGENT /\ e_time x == now s /\ e_eid x = next_eid s /\
+               nth_error (events s') (e_ev x) = Some ev /\ kind ev = KInit (length (procs s)).
+Proof. exact spawn_schedules_initialize_urgent. Qed.
+Print Assumptions C01_initialize_urgent.
+
+Theorem C01_interruption_urgent : forall e cause s s',
+  call_interrupt e cause s = (s', Ok VNone) ->
+  exists x ev p, agenda s' = agenda s ++ [x] /\ e_prio x = URGENT /\ e_time x == now s /\ e_eid x = next_eid s /\
+                 nth_error (events s') (e_ev x) = Some ev /\ kind ev = KInterruption p.
+Proof. exact interrupt_schedules_urgent. Qed.
+Print Assumptions C01_interruption_urgent.
+
+Theorem C01_until_sentinel_urgent : forall t s s1,
+  run_prelude (UNum t) s = inr s1 ->
+  now s < t /\
+  exists x ev, agenda s1 = agenda s ++ [x] /\ e_prio x = URGENT /\ e_time x == t /\ e_eid x = next_eid s /\
+               nth_error (events s1) (e_ev x) = Some ev /\ kind ev = KSentinel.
+Proof. exact until_sentinel_urgent. Qed.
+Print Assumptions C01_until_sentinel_urgent.
+
+Theorem C01_trigger_normal : forall e o s,
+  exists x, agenda (trigger_event e o s) = agenda s ++ [x] /\ e_prio x = NORMAL /\ e_time x == now s /\
+            e_eid x = next_eid s /\ e_ev x = e.
+Proof. exact trigger_schedules_normal. Qed.
+Print Assumptions C01_trigger_normal.
+
+(* a negative delay is refused with ValueError and the state is unchanged; any other delay is accepted *)
+Theorem C01_negative_delay_refused : forall codes d v s,
+  d < 0 -> do_call codes (CTimeout d v) s = (s, Fail (kexn EValue M_negative_delay)).
+Proof. exact negative_delay_refused. Qed.
+Print Assumptions C01_negative_delay_refused.
+
+Theorem C01_nonnegative_delay_accepted : forall codes d v s,
+  0 <= d -> exists e s', do_call codes (CTimeout d v) s = (s', Ok (VEv e)).
+Proof. exact nonnegative_delay_accepted. Qed.
+Print Assumptions C01_nonnegative_delay_accepted.
